@@ -115,6 +115,65 @@ class ArrayView:
         return self.base.get(tuple(full + idx))
 
 
+class Pointer:
+    """C pointer into an array: p[i] == base[offset + i]  (1-D) ; for a tuple offset the LAST axis is advanced (row-major stack arrays)"""
+
+    def __init__(self, base, offset):
+        self.base, self.offset = base, offset
+
+    def _at(self, i):
+        i = sp.sympify(i)
+        if isinstance(self.offset, tuple):
+            shp = getattr(self.base, "shape", None)
+            if shp is None or len(shp) != len(self.offset):
+                raise SymExError("pointer into an array of unknown shape")
+            flat = sp.Integer(0)
+            for o, n_ in zip(self.offset, shp):
+                flat = flat * n_ + o
+            return ("flat", flat + i)
+        return self.offset + i
+
+    def get(self, i):
+        at = self._at(i)
+        if isinstance(at, tuple):
+            return self.base.get_flat(at[1])
+        if isinstance(self.base, list):
+            return self.base[_concrete_int(at)]
+        return self.base.get(at)
+
+    def set(self, i, v):
+        at = self._at(i)
+        if isinstance(at, tuple):
+            return self.base.set_flat(at[1], v)
+        if isinstance(self.base, list):
+            self.base[_concrete_int(at)] = v
+            return
+        self.base.set(at, v)
+
+
+class RefCell:
+    """&variable : p[0] reads / writes the variable"""
+
+    def __init__(self, holder, name):
+        self.holder, self.name = holder, name
+
+    def get(self, i=0):
+        if isinstance(self.holder, dict):
+            return self.holder[self.name]
+        return self.holder.getattr(self.name)
+
+    def set(self, i, v):
+        if isinstance(self.holder, dict):
+            self.holder[self.name] = v
+        else:
+            self.holder.setattr(self.name, v)
+
+
+class SuperProxy:
+    def __init__(self, obj, cls):
+        self.obj, self.cls = obj, cls
+
+
 class Obj:
     """simple object store (attributes) for the OOP subset"""
 
@@ -196,6 +255,8 @@ class MethodFn:
             if d is not None:
                 self.defaults[a.arg] = d
         self.dropped = ["decorators/annotations/docstring"]
+        self.vararg = node.args.vararg.arg if node.args.vararg else None
+        self.kwarg = node.args.kwarg.arg if node.args.kwarg else None
         seg = ast.get_source_segment(self.src.text, node) or ""
         self.sha = hashlib.sha256(seg.encode()).hexdigest()[:16]
 
@@ -265,6 +326,9 @@ class Exec:
             for p, d in self.fn.defaults.items():
                 if p not in env:
                     env[p] = self.ev(d, {})
+            for extra, dflt in ((getattr(self.fn, "vararg", None), ()), (getattr(self.fn, "kwarg", None), {})):
+                if extra and extra not in env:
+                    env[extra] = type(dflt)()
             missing = [p for p in self.fn.params if p not in env]
             if missing:
                 raise SymExError(f"{self.fn.key}: no value for parameters {missing}")
@@ -416,7 +480,10 @@ class Exec:
         elif isinstance(t, ast.Subscript):
             base = self.ev(t.value, env)
             idx = self.ev_index(t.slice, env)
-            if isinstance(base, SymArray):
+            if isinstance(base, (Pointer, RefCell)):
+                base.set(idx, v)
+                self.effects.append(("pointer_write", base, idx, v))
+            elif isinstance(base, SymArray):
                 base.set(idx, v)
                 self.effects.append(("array_write", base.name, idx, v))
             elif isinstance(base, (list, dict)):
@@ -858,7 +925,7 @@ class Exec:
     def ev_Subscript(self, node, env):
         base = self.ev(node.value, env)
         idx = self.ev_index(node.slice, env)
-        if isinstance(base, (SymArray, ArrayView)):
+        if isinstance(base, (SymArray, ArrayView, Pointer, RefCell)):
             return base.get(idx)
         if isinstance(base, dict):
             k = _hashable(idx)
@@ -882,6 +949,15 @@ class Exec:
         a = node.attr
         if isinstance(base, Namespace):
             return base.get(a)
+        if isinstance(base, SuperProxy):
+            mro = base.obj._cls.mro()
+            after = mro[mro.index(base.cls) + 1:] if base.cls in mro else mro
+            for c in after:
+                if a in c.methods:
+                    return ("method", base.obj, MethodFn(c, c.methods[a]))
+            if ".super." + a in self.contracts:
+                return ("method_contract", base.obj, self.contracts[".super." + a])
+            raise SymExError(f"super().{a}: no such method in the modelled bases of {base.cls.name}")
         if isinstance(base, Obj):
             if base.has(a):
                 return base.getattr(a)
@@ -921,6 +997,13 @@ class Exec:
         raise SymExError(f"attribute .{a} of {type(base).__name__} at line {node.lineno}")
 
     def ev_Call(self, node, env):
+        if isinstance(node.func, ast.Name) and node.func.id == "super" and not node.args:
+            cur = self._fnstack[-1]
+            if not isinstance(cur, MethodFn) or "self" not in env:
+                raise SymExError("super() outside a method")
+            return SuperProxy(env["self"], cur.cls)
+        if isinstance(node.func, ast.Name) and node.func.id == "ADDR" and len(node.args) == 1:
+            return self.address_of(node.args[0], env)
         f = self.ev(node.func, env)
         args = []
         for a in node.args:
@@ -936,6 +1019,22 @@ class Exec:
                 kwargs[k.arg] = self.ev(k.value, env)
         return self.call(f, args, kwargs, node)
 
+    def address_of(self, target, env):
+        """&x (translated ADDR(x)): pointer into an array, or a reference cell for a scalar variable / attribute"""
+        if isinstance(target, ast.Subscript):
+            base = self.ev(target.value, env)
+            idx = self.ev_index(target.slice, env)
+            if isinstance(base, Pointer):
+                return Pointer(base.base, base.offset + sp.sympify(idx))
+            if isinstance(base, (SymArray, list)) or hasattr(base, "get"):
+                return Pointer(base, sp.sympify(idx) if not isinstance(idx, tuple) else idx)
+            raise SymExError(f"address of element of {type(base).__name__}")
+        if isinstance(target, ast.Name):
+            return RefCell(env, target.id)
+        if isinstance(target, ast.Attribute):
+            return RefCell(self.ev(target.value, env), target.attr)
+        raise SymExError("address-of expression")
+
     def call(self, f, args, kwargs, node):
         if isinstance(f, tuple) and f and f[0] == "fn":
             name = f[1]
@@ -950,6 +1049,8 @@ class Exec:
             return self.call_bound(f[1], f[2], args, kwargs, node)
         if isinstance(f, tuple) and f and f[0] == "method":
             return self.call_method(f[1], f[2], args, kwargs, node)
+        if isinstance(f, tuple) and f and f[0] == "method_contract":
+            return self.call_contract(f[2], [f[1]] + list(args), kwargs, node)
         if isinstance(f, tuple) and f and f[0] == "localfn":
             raise SymExError("call of nested function")
         if isinstance(f, Contract):
@@ -1013,9 +1114,19 @@ class Exec:
         depth = sum(1 for f in self._fnstack if getattr(f, "key", None) == mfn.key)
         if depth > self.opts.get("max_recursion", 3):
             raise SymExError(f"recursion depth exceeded in {mfn.key}")
-        env = dict(zip(mfn.params, [obj] + list(args)))
+        allargs = [obj] + list(args)
+        env = dict(zip(mfn.params, allargs))
+        if mfn.vararg:
+            env[mfn.vararg] = tuple(allargs[len(mfn.params):])
+        elif len(allargs) > len(mfn.params):
+            raise SymExError(f"{mfn.key}: too many positional arguments")
+        if mfn.kwarg:
+            env[mfn.kwarg] = {}
         for k, v in kwargs.items():
             if k not in mfn.params and k not in mfn.kwonly:
+                if mfn.kwarg:
+                    env[mfn.kwarg][k] = v
+                    continue
                 raise SymExError(f"{mfn.key}: unexpected keyword {k}")
             env[k] = v
         self._fnstack.append(mfn)
